@@ -29,7 +29,8 @@ theorem runP_afterDD (tbl : List OptSpec) (ws : List Name) (ps : PS) (hd : ps.af
 
 /-- **`--` ends the options.** With one `nargs='*'` positional, the arguments `-- w1 w2 …` are accepted
 whatever the words look like, and the positional receives exactly those words. -/
-theorem runParser_dd {q : Parser} {o : OptSpec} (hp : posSpecs q.opts = [o]) (hn : posN o = .star) (ws : List Name) :
+theorem runParser_dd {q : Parser} {o : OptSpec} (hp : posSpecs q.opts = [o]) (hn : posN o = .star)
+    (hreq : ∀ u, missingReq q.opts u = false) (ws : List Name) :
     ∃ ns, runParser q (dd :: ws) = .ok ns ∧ ns.get (destOf o) = some (.list ws) ∧
       ∀ k, k ≠ destOf o → ns.get k = (defaults q.opts []).get k := by
   have hpos : posOk q.opts = true := by simp [posOk, hp]
@@ -43,7 +44,7 @@ theorem runParser_dd {q : Parser} {o : OptSpec} (hp : posSpecs q.opts = [o]) (hn
   have hrun : (addWord q.opts { PS.init q.opts with afterDD := true } (dd, true)).run = .opened [(dd, true)] := by
     simp [addWord, PS.init, hne]
   rw [runP_afterDD q.opts ws _ (by simp [addWord, PS.init, hne]) _ hrun]
-  simp only [finish, closeRun, consumeRun, hp, hn, splitRun, List.cons_append, List.nil_append, List.map_cons,
+  simp only [finish, hreq, Bool.false_eq_true, if_false, finishPos, closeRun, consumeRun, hp, hn, splitRun, List.cons_append, List.nil_append, List.map_cons,
     List.map_map, assignRest]
   have hstr : posValue PosN.star (dd :: List.map ((fun x => x.1) ∘ fun w => (w, false)) ws) = .list ws := by
     simp [posValue, List.erase_cons_head, Function.comp_def]
